@@ -161,6 +161,21 @@ func runArp(r *gen.Rng, n int) {
 			runArpCase(std(a.bytes(), -1))
 		}
 	}
+	// --- lattice 1b: every kind of SENDER protocol address x requests for own / foreign targets and
+	// replies: the unspecified address (an RFC 5227 address probe), our own address (gratuitous /
+	// conflicting announcement), broadcast, the target itself, another host
+	senders := [][]byte{{0, 0, 0, 0}, own1, own2, {255, 255, 255, 255}, foreign, {10, 0, 0, 9}, {127, 0, 0, 1}, {224, 0, 0, 1}}
+	for _, op := range []uint16{1, 2} {
+		for _, sp := range senders {
+			for _, t := range [][]byte{own1, own2, foreign, sp} {
+				a := baseReq(t)
+				a.op, a.spa = op, sp
+				runArpCase(std(a.bytes(), -1))
+				a.sha = []byte{0, 0, 0, 0, 0, 0}
+				runArpCase(std(a.bytes(), -1))
+			}
+		}
+	}
 	// --- lattice 2: one header field wrong at a time, request for our address and reply
 	for _, op := range []uint16{1, 2} {
 		for _, ht := range []uint16{0, 2, 6, 256, 257, 0x0100, 0xffff} {
@@ -245,6 +260,9 @@ func runArp(r *gen.Rng, n int) {
 			}
 		}
 		a := arpPkt{htype: 1, ptype: 0x0800, hlen: 6, plen: 4, op: 1, sha: r.Bytes(6), spa: pickIP(), tha: r.Bytes(6), tpa: pickIP()}
+		if r.Intn(6) == 0 {
+			a.spa = [][]byte{{0, 0, 0, 0}, {255, 255, 255, 255}, a.tpa}[r.Intn(3)]
+		}
 		switch r.Intn(10) {
 		case 0, 1, 2:
 			a.op = 2
